@@ -9,3 +9,4 @@ for v in r['violations']:
     print('[%s] %s -> %s {%s}\n    %s\n    first: %s  %s  x%d' % (v['rule'], v['fn'], v['callee'], v['facet'], v['what'], v['first_state'], v['site'], v['count']))
     for k, n in v['via'][:int(sys.argv[2]) if len(sys.argv)>2 else 3]:
         print('       via', k, 'x%d' % n)
+    for w in v.get('witness', [])[-8:]: print('       W', w)
